@@ -1,7 +1,8 @@
 """C13 - configuration sources are merged with a fixed precedence; deep union; documents unmodified; earlier contexts stable.
 
 Model:      specs/ConfigMergeP.tla (P operators: Merge, Match, GroupApply, clause theorems), specs/ConfigMerge.tla (P state machine +
-            I-layer: _utilities.deep_update step by step on an explicit object heap, builders, contexts).  Exhaustive over all
+            I-layer: _utilities.deep_update step by step on an explicit object heap, builders, contexts, the C++
+            _validate_language_options group step).  Exhaustive over all
             (built-in, file/API document, override) triples of nested maps of depth <= 3 with default-marked leaves and with or
             without shared sub-maps (YAML anchors), over both dict iteration orders, and over all histories of <= MaxOps operations on
             two builders that share documents.  Negative controls: CopyMode "shallow" (the original copy.copy) and "deepcopy".
@@ -1034,7 +1035,7 @@ def judge(ctx, stims, results, what="history"):
 # ------------------------------------------------------------------------------------------------------------------------------
 # TLC: sliced exhaustive runs
 # ------------------------------------------------------------------------------------------------------------------------------
-def sliced(ctx, cfgname, nslices, name, constants, *, subst=None, emit=False, expect_violation=None, timeout=3000, xmx="3g",
+def sliced(ctx, cfgname, nslices, name, constants, *, subst=None, emit=False, expect_violation=None, timeout=3000, xmx="2g",
            simulate=None, depth=None):
     text = (SPECS / (cfgname + ".cfg")).read_text()
     for a, b in (subst or {}).items():
@@ -1159,15 +1160,22 @@ def run(ctx):
     if not ctx.quick:
         sliced(ctx, "ConfigMerge_fold3", 16, "ConfigMerge fold, all built-in shapes", "CopyMode=rebuild Mode=fold UFold3: 36 x 36 x 117")
     # dict iteration order must not matter (python dicts iterate in insertion order, which the caller controls)
-    sliced(ctx, "ConfigMerge_order", 16, "ConfigMerge fold, any key order",
-           "CopyMode=rebuild Mode=fold UOrder (3 x 36 x 117 shapes) AnyOrder=TRUE")
+    sliced(ctx, "ConfigMerge_orderq", 16, "ConfigMerge fold, any key order (small)",
+           "CopyMode=rebuild Mode=fold UOrderQ (3 x 36 x 13 shapes) AnyOrder=TRUE")
     if not ctx.quick:
-        sliced(ctx, "ConfigMerge_fold4", 16, "ConfigMerge fold, two files", "CopyMode=rebuild Mode=fold UFold4: 3 x 36 x 36 x 117", xmx="4g")
+        sliced(ctx, "ConfigMerge_order", 16, "ConfigMerge fold, any key order",
+               "CopyMode=rebuild Mode=fold UOrder (3 x 36 x 117 shapes) AnyOrder=TRUE")
+        sliced(ctx, "ConfigMerge_fold4", 16, "ConfigMerge fold, two files", "CopyMode=rebuild Mode=fold UFold4: 3 x 36 x 36 x 13")
         sliced(ctx, "ConfigMerge_fold3d", 16, "ConfigMerge fold, API document with default markers in the middle",
                "CopyMode=rebuild Mode=fold UFold3D: 8 x 117 x 117")
+    # language-standard groups: _validate_language_options writes the selected block over the options (I) vs. GroupApply (P)
+    sliced(ctx, "ConfigMerge_group", 16, "ConfigMerge fold with option groups",
+           "CopyMode=rebuild Mode=fold Group=update UGroup (1 x 36 x 117 shapes)")
     # histories: two builders sharing documents, create/update interleaved
-    hcfg, hn, hdesc = ctx.pick(("ConfigMerge_histq", 7, "MaxOps=5 UHistQ (3 x 7 x 7 shapes)"), ("ConfigMerge_hist", 13, "MaxOps=6 UHist (3 x 13 x 13 shapes)"))
-    sliced(ctx, hcfg, hn, "ConfigMerge histories", "CopyMode=rebuild Mode=hist NB=2 " + hdesc, timeout=3400)
+    for hcfg, hn, hdesc in ctx.pick([("ConfigMerge_histq", 7, "MaxOps=5 UHistQ (3 x 7 x 7 shapes)")],
+                                    [("ConfigMerge_histq6", 7, "MaxOps=6 UHistQ (3 x 7 x 7 shapes)"),
+                                     ("ConfigMerge_hist", 13, "MaxOps=5 UHist (3 x 13 x 13 shapes)")]):
+        sliced(ctx, hcfg, hn, "ConfigMerge histories " + hcfg, "CopyMode=rebuild Mode=hist NB=2 " + hdesc, timeout=3400)
     # negative controls of the model: the original shallow copy and the insufficient deepcopy repair must be refuted
     neg = []
     for mode, inv, cfg in (("shallow", "DocsUnmodified", "ConfigMerge_neg"), ("deepcopy", "Refines", "ConfigMerge_neg"),
@@ -1178,6 +1186,10 @@ def run(ctx):
         a, _ = sliced(ctx, cfg, 1, "neg %s %s" % (mode, inv), "", subst={'CopyMode = "rebuild"': 'CopyMode = "%s"' % mode, **drop},
                       expect_violation=inv)
         neg.append("CopyMode=%s refuted by invariant %s after %d states" % (mode, inv, a.distinct))
+    a, _ = sliced(ctx, "ConfigMerge_groupneg", 1, "neg group setdefault", "",
+                  subst={"INVARIANT DocsUnmodified\n": "", "INVARIANT CtxStable\n": "", "INVARIANT NoSharing\n": "",
+                         "INVARIANT OracleClauses\n": ""}, expect_violation="Refines")
+    neg.append("Group=setdefault (the block only fills gaps) refuted by invariant Refines after %d states" % a.distinct)
     ctx.cov["model_negative_control"] = neg
     phase("model checking")
 
